@@ -206,7 +206,9 @@ var styleFrags = []string{"color: red", "color: RED", "color:#fff", "width: 10px
 	"color: expression(alert(1))", "-webkit-color: red", "-moz--webkit-color: red", "COLOR: blue", "color: r\\65 d", "color: \\72 ed", "width: 1\\30 px", "font-family: 'a b', serif",
 	"float: left", "float: LEFT", "unknown-prop: x", "color: red !important", "/* c */ color: red", "color: red; width: 5px", "color", ": red", "color: ;", "{}", "color: red;;width:1px",
 	"text-decoration: underline overline", "z-index: 5", "opacity: 0.5", "color: \\0", "color: \\d800", "color: \\110000", "color: \\000072ed", "margin: 1px 2px", "display: none", "color: red\\", "font-size: 12px",
-	"color: #fff", "color: #FFF", "width: 2px", "width: auto", "background: RED", "background: \\72 ed", "background: Green", "color: gree\\6E", "color: \\52 ed", "background: ur\\6C(http://x/y)", "color: blue", "color: \\000062lue", "width: \\32 px"}
+	"color: #fff", "color: #FFF", "width: 2px", "width: auto", "background: RED", "background: \\72 ed", "background: Green", "color: gree\\6E", "color: \\52 ed", "background: ur\\6C(http://x/y)", "color: blue", "color: \\000062lue", "width: \\32 px",
+	// an undecodable escape empties the value the matchers see (F16): the declaration must go, whatever follows
+	"font-family: \\110000 expression(alert(1))", "font: \\d800 url(javascript:alert(1))", "font-family: \\110000", "font-family: serif"}
 var relFrags = []string{"nofollow", "noopener", "noreferrer", "xnofollowx", "nonoopener", "NOFOLLOW", "a b", "nofollow noopener noreferrer", "", "me"}
 
 // attrValue: a value for the attribute; one time in six padded with white space (value patterns
